@@ -28,8 +28,8 @@ where
         usize::try_from(n).map_err(|e| io::Error::new(io::ErrorKind::InvalidData, e))
     })?;
 
-    let mut bins = IndexMap::with_capacity(n_bin);
-    let mut index = BinnedIndex::with_capacity(n_bin);
+    let mut bins = IndexMap::new();
+    let mut index = BinnedIndex::new();
 
     let metadata_id = Bin::metadata_id(depth);
     let mut metadata = None;
